@@ -189,7 +189,7 @@ def run_history(res, ctx, root, rng, hidx, max_steps, con):
                 years_by_holder.setdefault(h, set()).update(years)
             else:
                 years_by_holder.setdefault(h, set())
-        hides = "--force-dot-license" in opts and not had_license_file and (prev_c or prev_l)
+        hides = "--force-dot-license" in opts and not had_license_file and bool(prev_c or prev_l or prev_contrib)
         if merge:
             # holders remain; licences grow
             gh = holder_lines(got_c)
@@ -233,6 +233,13 @@ def run_history(res, ctx, root, rng, hidx, max_steps, con):
                               f"template {template}; read {sorted(gcon)}", args=args + opts, history=sig)
                 return
         prev_c, prev_l, prev_contrib = set(got_c), set(got_l), set(gcon)
+        if hides:
+            # the new .license has replaced the file's own header as the carrier (listed finding): from here on the model
+            # knows only what is visible there
+            years_by_holder = {}
+            for h, yss in holder_lines(prev_c).items():
+                for ys in yss:
+                    years_by_holder.setdefault(h, set()).update(ys)
         res.cell("step:ok")
         res.cell("shape:" + ("dot-license" if annot.carrier_of(f).endswith(".license") else "in-file"))
         if merge:
